@@ -342,3 +342,96 @@ Proof.
   destruct (prepare_inv uneval dflt sh sh' p H1 H2 E) as [I F].
   split; [apply (spill_exact_b_complete dflt); exact I | apply spill_full_b_complete; exact F].
 Qed.
+
+(* ---- delete_columns / insert_columns: the descriptor surgery keeps the layout well-formed ----------- *)
+Ltac zb := rewrite ?Z.ltb_lt, ?Z.ltb_ge, ?Z.leb_le, ?Z.leb_gt in *.
+Ltac ifs := repeat match goal with
+  | |- context [if ?b then _ else _] => let E := fresh "E" in destruct b eqn:E
+  | H : context [if ?b then _ else _] |- _ => let E := fresh "E" in destruct b eqn:E
+  end.
+
+Lemma wf_from_weaken lo lo' cs : lo <= lo' -> Cols.wf_from lo' cs -> Cols.wf_from lo cs.
+Proof. destruct cs as [|c r]; cbn [Cols.wf_from]; [auto|]. intros H [H1 H2]. split; [lia | exact H2]. Qed.
+
+(* where column x ends up when the band [start, start+count-1] is deleted (deleted columns collapse
+   onto start-1) *)
+Definition dshift (start count x : Z) : Z :=
+  if x <? start then x else if x <=? start + count - 1 then start - 1 else x - count.
+
+Lemma del_descr_spec start count lo c :
+  1 <= count -> lo < Cols.c_min c -> Cols.c_min c <= Cols.c_max c ->
+  dshift start count lo <= dshift start count (Cols.c_max c) /\ dshift start count (Cols.c_max c) <= Cols.c_max c /\
+  match del_descr start count c with
+  | Some c' => dshift start count lo < Cols.c_min c' /\ Cols.c_min c' <= Cols.c_max c' /\
+               Cols.c_max c' = dshift start count (Cols.c_max c)
+  | None => True
+  end.
+Proof.
+  intros Hc H1 H2. unfold del_descr, dshift, with_range. cbv zeta.
+  ifs; cbn [Cols.c_min Cols.c_max]; zb; repeat split; try lia.
+Qed.
+
+Lemma del_descrs_wf start count : 1 <= count ->
+  forall cs lo, Cols.wf_from lo cs -> Cols.wf_from (dshift start count lo) (del_descrs start count cs).
+Proof.
+  intros Hc. induction cs as [|c r IH]; intros lo H; cbn [del_descrs]; [exact I|].
+  cbn [Cols.wf_from] in H. destruct H as (H1 & H2 & H3 & H4).
+  destruct (del_descr_spec start count lo c Hc H1 H2) as (S1 & S2 & S3).
+  specialize (IH _ H4).
+  destruct (del_descr start count c) as [c'|].
+  - destruct S3 as (A & B & C). cbn [Cols.wf_from]. rewrite C. repeat split; try lia. exact IH.
+  - eapply wf_from_weaken; [exact S1 | exact IH].
+Qed.
+
+Theorem delete_columns_descrs_wf start count cs cs' :
+  Cols.wf cs -> delete_columns_descrs start count cs = Ok cs' -> Cols.wf cs'.
+Proof.
+  unfold delete_columns_descrs, Cols.wf. intros H E.
+  destruct (count <=? 0) eqn:E1; [discriminate|].
+  destruct (negb ((1 <=? start) && (start <=? LAST_COLUMN))) eqn:E2; [discriminate|].
+  destruct (LAST_COLUMN <? start + count - 1); [discriminate|]. inversion E; subst cs'.
+  apply negb_false_iff, andb_true_iff in E2 as [E2 _]. zb.
+  replace 0 with (dshift start count 0) at 1 by (unfold dshift; ifs; zb; lia).
+  apply del_descrs_wf; [lia | exact H].
+Qed.
+
+Definition ishift (column count x : Z) : Z := if x <? column then x else x + count.
+
+Lemma ins_descrs_wf column count : 0 <= count ->
+  forall cs lo, Cols.wf_from lo cs ->
+  (forall c, In c cs -> column <= Cols.c_max c -> Cols.c_max c + count <= LAST_COLUMN) ->
+  Cols.wf_from (ishift column count lo) (map (ins_descr column count) cs).
+Proof.
+  intros Hc. induction cs as [|c r IH]; intros lo H Hfit; cbn [map]; [exact I|].
+  cbn [Cols.wf_from] in H. destruct H as (H1 & H2 & H3 & H4).
+  assert (Hf : column <= Cols.c_max c -> Cols.c_max c + count <= LAST_COLUMN) by (apply Hfit; left; reflexivity).
+  assert (IH' := IH _ H4 (fun c0 Hin => Hfit c0 (or_intror Hin))).
+  cbn [Cols.wf_from].
+  assert (X : Cols.c_max (ins_descr column count c) = ishift column count (Cols.c_max c) /\
+              ishift column count lo < Cols.c_min (ins_descr column count c) /\
+              Cols.c_min (ins_descr column count c) <= Cols.c_max (ins_descr column count c) /\
+              ishift column count (Cols.c_max c) <= LAST_COLUMN).
+  { unfold ins_descr, ishift, with_range. ifs; cbn [Cols.c_min Cols.c_max]; zb; repeat split; try lia. }
+  destruct X as (X1 & X2 & X3 & X4). rewrite X1. repeat split; try lia. exact IH'.
+Qed.
+
+(* insert_columns checks the cells' dimension only: descriptors whose shifted end stays on the grid
+   keep the layout well-formed ... *)
+Theorem insert_columns_descrs_partial column count cs cs' :
+  Cols.wf cs -> 1 <= column ->
+  (forall c, In c cs -> column <= Cols.c_max c -> Cols.c_max c + count <= LAST_COLUMN) ->
+  insert_columns_descrs column count cs = Ok cs' -> Cols.wf cs'.
+Proof.
+  unfold insert_columns_descrs, Cols.wf. intros H Hcol Hfit E.
+  destruct (count <=? 0) eqn:E1; [discriminate|]. inversion E; subst cs'. zb.
+  replace 0 with (ishift column count 0) at 1 by (unfold ishift; ifs; zb; lia).
+  apply ins_descrs_wf; [lia | exact H | exact Hfit].
+Qed.
+
+(* ... and a descriptor on the last column is pushed off the grid *)
+Theorem insert_columns_descrs_refuted :
+  exists cs column count cs', Cols.wf_b cs = true /\ insert_columns_descrs column count cs = Ok cs' /\ Cols.wf_b cs' = false.
+Proof.
+  exists [Cols.mkCol 16384 16384 50 true false None], 1, 1, [Cols.mkCol 16385 16385 50 true false None].
+  vm_compute. repeat split; reflexivity.
+Qed.
